@@ -26,6 +26,15 @@ def run(ctx):
     from athlib import codes
     rows = [AC.Row(dict(gender=r['gender'], event_code=r['event_code'], A=r['A'], Z=r['Z'], X=r['X'])) for r in side['table']]
     pairs = [(r.gender, r.event) for r in rows] + [('X', '100'), ('M', 'XYZ'), ('F', '110H'), ('M', '80H'), ('m', '100'), ('f', 'lj')]
+    # stir first: the boys' 800 m marks that the sweep below will score are scored with the English Schools option
+    # beforehand — the answers of the plain calls must not depend on that (they are judged in the sweep)
+    for s_ in range(1, 1501, 3):
+        try:
+            p_ = athlib.athlon_performance_needed('M', '800', s_)
+            for q_ in (p_, round(p_ + 0.01, 2)):
+                athlib.athlon_score('M', '800', q_, esaa=True)
+        except Exception:
+            pass
     lines = []; impl = []; reqs = []
     for g, e in pairs:
         for s in range(-10, 1501):
@@ -68,6 +77,40 @@ def run(ctx):
         if viol:
             ctx.fail('athlib.athlon_performance_needed', [g, e, s], mo, im, note=viol,
                      replay_py='p = athlib.athlon_performance_needed(%r, %r, %r)\nresult = (p, athlib.athlon_score(%r, %r, p))' % (g, e, s, g, e))
+    # ---- the same targets in another numeric form, and the boys' 800 m after calls with the English Schools option
+    nform = 0
+    by = {rq: im for rq, im in zip(reqs, impl)}
+    from fractions import Fraction
+    for g, e in pairs:
+        for s in list(range(-3, 1501, 7)) + [1, 2, 999, 1000, 1284]:
+            want = by.get((g, e, s))
+            if want is None: continue
+            for form, t in (('float', float(s)), ('Fraction', Fraction(s))):
+                try:
+                    p = athlib.athlon_performance_needed(g, e, t)
+                    got = 'none' if p is None else 'k %d' % round(p * 100) if abs(p * 100 - round(p * 100)) < 1e-6 and round(p * 100) >= 0 else 'offgrid %r' % p
+                except Exception as ex:
+                    got = 'Error:' + type(ex).__name__
+                nform += 1
+                if got != want and not (form == 'Fraction' and got.startswith('Error') and want != 'none' and False):
+                    ctx.fail('athlib.athlon_performance_needed', [g, e, repr(t)], want + ' (the answer for the int target %d)' % s, got,
+                             note='target given as %s' % form,
+                             replay_py='from fractions import Fraction\nresult = (athlib.athlon_performance_needed(%r, %r, %r), athlib.athlon_performance_needed(%r, %r, %r))' % (g, e, s, g, e, t))
+    ctx.count(nform, 'target_form_calls')
+    nh = 0
+    for s in range(1, 1501, 3):
+        im = by.get(('M', '800', s))
+        if not im or not im.startswith('k '): continue
+        k = int(im[2:])
+        for kk in (k, k + 1):
+            athlib.athlon_score('M', '800', kk / 100.0, esaa=True)          # stir: the other option, same mark
+        sc = athlib.athlon_score('M', '800', k / 100.0); sw = athlib.athlon_score('M', '800', (k + 1) / 100.0); nh += 2
+        if sc is None or sc < s or sw is None or sw >= s:
+            ctx.fail('athlib.athlon_performance_needed', ['M', '800', s, 'scored after esaa=True calls for the same marks'],
+                     'needed mark %.2f scores >= %d and %.2f scores less' % (k / 100.0, s, (k + 1) / 100.0), '%r and %r' % (sc, sw),
+                     note='history: the score of the needed mark depends on earlier calls with the English Schools option',
+                     replay_py='p = athlib.athlon_performance_needed("M", "800", %d)\nathlib.athlon_score("M", "800", p, esaa=True)\nresult = (p, athlib.athlon_score("M", "800", p))' % s)
+    ctx.count(nh, 'history_calls')
     ctx.stats['disagreements'] = nd
     ctx.distinct = set(range(nont))
     if nd == 0:
